@@ -337,7 +337,16 @@ func (sc *scenario[E]) windowSize() uint64 {
 	return sum.Uint64()
 }
 
+// gctx is set in main; runOne records the input it is about to run (a panic inside a worker
+// goroutine of BruteForce cannot be recovered and kills the harness).
+var gctx *gal.Ctx
+
 func runOne[E elem](sc *scenario[E], rc runCfg) *runObs[E] {
+	if gctx != nil {
+		gctx.Begin("bruteforcer.BruteForce did not return", "pkg/bruteforcer/brute_forcer.go:BruteForce",
+			map[string]interface{}{"data": fmt.Sprint(sc.data), "itemSize": sc.itemSize, "minDistance": sc.wmin, "maxDistance": sc.wmax,
+				"predicate": sc.p.descr(), "GOMAXPROCS": rc.gomax, "maxConcurrency": rc.maxConc, "initMode": rc.initMode, "jitter": rc.jitter})
+	}
 	orig := append([]E(nil), sc.data...)
 	input := append([]E(nil), sc.data...)
 	keepFull := sc.windowSize() <= maxFullCands
@@ -1041,6 +1050,7 @@ type space struct {
 
 func main() {
 	c := gal.New("C07", header, perShard)
+	gctx = c
 
 	// ---- F1: tiny spaces, every value offered is shipped ----
 	for i, n := 0, c.Scale(260, 1500); i < n; i++ {
